@@ -97,6 +97,7 @@ type world struct {
 	scatterer *schedule.RegionScatterer
 	cancel    context.CancelFunc
 	cw        *pdcluster.World
+	noRebuild bool // the next prep keeps the cluster objects (op scatteraged)
 }
 
 func (w *world) reset() {
@@ -209,7 +210,9 @@ func (w *world) scatterOnce(region *core.RegionInfo, group string) (orders strin
 // prep rebuilds the cluster and computes the inputs of one scatter call: the region, the store order served
 // by GetStores and the placement safeguard verdicts; errObs != "" when the call cannot be made.
 func (w *world) prep(rid uint64, seed uint64) (region *core.RegionInfo, ids []uint64, gs string, errObs string) {
-	if err := w.rebuild(); err != nil {
+	if w.noRebuild && w.cw != nil {
+		// `scatteraged`: the very same StoreInfo objects as in the call before, only older
+	} else if err := w.rebuild(); err != nil {
 		return nil, nil, "", "err:" + strings.ReplaceAll(err.Error(), " ", "_")
 	}
 	region = w.cw.Regions[rid]
@@ -522,6 +525,57 @@ func (w *world) exec(op string) (string, string) {
 			// map iteration order
 			w.scatterer.VerifScatterRestore(before)
 		}
+		if want == "" && observed != "" {
+			op = op + " want=" + observed
+		}
+		return obs, op
+	case "scatteraged":
+		// scatteraged <region> <group> <store> seed=<n> [want=..]: the store was heard of a little less than the
+		// disconnect time ago when the scatterer looked at it (a first scatter of the region whose history is
+		// undone), then stays silent; the scatter that is observed runs 0.45 s later on the very same cluster
+		// objects, when the store counts as disconnected.  For the model: the store's silence becomes the
+		// disconnect time, then `scatter`.
+		if len(f) < 5 {
+			return "bad-op", op
+		}
+		rid, _ := strconv.ParseUint(f[1], 10, 64)
+		group := f[2]
+		if group == "-" {
+			group = ""
+		}
+		sid, _ := strconv.ParseUint(f[3], 10, 64)
+		var seed uint64
+		want := ""
+		for _, t := range f[4:] {
+			if strings.HasPrefix(t, "seed=") {
+				seed, _ = strconv.ParseUint(t[5:], 10, 64)
+			}
+			if strings.HasPrefix(t, "want=") {
+				want = t[5:]
+			}
+		}
+		idx := -1
+		for i := range w.sp.Stores {
+			if w.sp.Stores[i].ID == sid {
+				idx = i
+			}
+		}
+		if idx < 0 {
+			return "unknown-store", op
+		}
+		w.sp.Stores[idx].Down, w.sp.Stores[idx].EdgeMs = 19, 700
+		region, _, _, e := w.prep(rid, seed)
+		w.sp.Stores[idx].Down, w.sp.Stores[idx].EdgeMs = 20, 0
+		if e != "" {
+			return e, op
+		}
+		before := w.scatterer.VerifScatterCounters()
+		w.scatterOnce(region, group)
+		w.scatterer.VerifScatterRestore(before)
+		time.Sleep(450 * time.Millisecond)
+		w.noRebuild = true
+		obs, observed := w.scatter(rid, group, seed, want)
+		w.noRebuild = false
 		if want == "" && observed != "" {
 			op = op + " want=" + observed
 		}
@@ -888,6 +942,10 @@ func gen(w *world, t *trace.W, r *rng.R, malformed bool) {
 			for j := r.Range(1, 3); j > 0; j-- {
 				w.run(t, fmt.Sprintf("scatter %d %s seed=%d dry=1", rs.id, g, r.Intn(1000000)))
 			}
+		}
+		if r.Bool(1, 80) && len(ordinary) > 0 {
+			// a store that goes silent between two looks of the long-lived scatterer
+			w.run(t, fmt.Sprintf("scatteraged %d %s %d seed=%d", rs.id, pick(r, groups), ordinary[r.Intn(len(ordinary))], r.Intn(1000000)))
 		}
 		obs := w.run(t, fmt.Sprintf("scatter %d %s seed=%d", rs.id, pick(r, groups), r.Intn(1000000)))
 		if i := strings.Index(obs, " | op "); i >= 0 && r.Bool(4, 5) {
